@@ -209,7 +209,10 @@ class List(list, base.Symbolic, pg_typing.CustomTyping):
     # NOTE(daiyip): We set onchange callback at the end of init to avoid
     # triggering during initialization.
     self._onchange_callback = onchange_callback
-    self.seal(sealed)
+    # NOTE: a new node is not sealed, and the members it was given keep their
+    # own flags unless the node itself is sealed.
+    if sealed:
+      self.seal(True)
 
   @property
   def max_size(self) -> Optional[int]:
